@@ -57,7 +57,15 @@ pub fn make_module() -> KMap {
 
         match ctx.instance_and_args(is_list, expected_error)? {
             (KValue::List(l), [KValue::List(other)]) => {
-                l.data_mut().extend(other.data().iter().cloned());
+                if l.is_same_instance(other) {
+                    // A list that's extended with itself is only borrowed once,
+                    // it would otherwise be borrowed mutably and immutably at the same time.
+                    let mut data = l.data_mut();
+                    let values = data.clone();
+                    data.extend(values);
+                } else {
+                    l.data_mut().extend(other.data().iter().cloned());
+                }
                 Ok(KValue::List(l.clone()))
             }
             (KValue::List(l), [KValue::Tuple(other)]) => {
@@ -402,7 +410,11 @@ pub fn make_module() -> KMap {
 
         match ctx.instance_and_args(is_list, expected_error)? {
             (KValue::List(a), [KValue::List(b)]) => {
-                std::mem::swap(a.data_mut().deref_mut(), b.data_mut().deref_mut());
+                // Swapping a list with itself is a no-op,
+                // and the list can't be mutably borrowed twice.
+                if !a.is_same_instance(b) {
+                    std::mem::swap(a.data_mut().deref_mut(), b.data_mut().deref_mut());
+                }
                 Ok(KValue::Null)
             }
             (instance, args) => unexpected_args_after_instance(expected_error, instance, args),
